@@ -149,8 +149,8 @@ func _yieldUnmarshalMachinePtrForAtlasEntry(row *unmarshalSlabRow, entry *atlas.
 		// and don't have a real value to transform until later.
 		row.unmarshalMachineTransform.trFunc = entry.UnmarshalTransformFunc
 		row.unmarshalMachineTransform.recv_rt = entry.UnmarshalTransformTargetType
-		// Pick delegate without growing stack.  (This currently means recursive transform won't fly.)
-		row.unmarshalMachineTransform.delegate = _yieldUnmarshalMachinePtr(row, atl, entry.UnmarshalTransformTargetType)
+		// The delegate for the serial form is requisitioned (on a slab row of its own) when the
+		// machine is reset: this row's machines may be busy getting us here.
 		row.unmarshalMachineTransform.tagged = entry.Tagged
 		row.unmarshalMachineTransform.tag = entry.Tag
 		return &row.unmarshalMachineTransform
